@@ -26,3 +26,5 @@ go1.26 test -c -vet=off -modfile="$OUT/go.mod" -overlay "$OUT/ov/overlay.json" -
 # E3: real-process cells run uninstrumented against the working tree
 go1.26 build -o "$OUT/vplugin" ./cmd/vplugin
 go1.26 test -c -vet=off -o "$OUT/e3.test" ./e3/
+# R: the race pass (free-running bodies under the race detector, uninstrumented)
+go1.26 test -race -c -vet=off -o "$OUT/race.test" ./race/
